@@ -12,7 +12,7 @@ from typing import Any, Dict, List
 from . import common, compat
 from .common import Report, cfg_text, run_tlc
 
-SIZES = [0, 1, 63, 64, 65, 127, 128, 129, 4095, 4096, 4097, 70000]
+SIZES = [0, 1, 63, 64, 65, 127, 128, 129, 4095, 4096, 4097, 70000, 1048576 + 5]
 
 
 def content(token: str, variant: int) -> bytes:
@@ -102,7 +102,7 @@ def run(tier: str) -> int:
                      {"x": "a", "y": "a.b", "o": "root.bak"}, {"x": "a b", "y": "a", "o": "root copy"},
                      {"x": ".hidden", "y": "ä ✓", "o": "root_"}, {"x": "A", "y": "a", "o": "rootX"},
                      {"x": "10", "y": "9", "o": "root2"}]
-        variants = [0, 3] if quick else list(range(len(SIZES)))
+        variants = [0, 3, len(SIZES) - 1] if quick else list(range(len(SIZES)))
         results = []
         nrej = nacc = nskip = 0
         scratch = wd / "dirs"
